@@ -520,12 +520,9 @@ class Gauss:
             x, y, z, weights = Gauss._Prism(nPg)  # type: ignore [assignment]
 
         elif elemType == ElemType.PRISM15:
-            if matrixType == MatrixType.rigi:
-                nPg = 6
-            elif matrixType == MatrixType.mass:
-                nPg = 21  # the 6-point rule has fewer points than the element has nodes
-            else:
-                raise ValueError("unknown matrixType")
+            # the 6-point rule has fewer points than the element has nodes (singular mass matrix)
+            # and leaves spurious zero-energy modes in the stiffness matrix of small meshes
+            nPg = 21
             x, y, z, weights = Gauss._Prism(nPg)  # type: ignore [assignment]
 
         elif elemType == ElemType.PRISM18:
